@@ -213,6 +213,42 @@ def run(ctx):
                 finally:
                     impl.drop_scratch(d)
 
+    # ---------------------------------------------------------------- (b2) reports with parts in two files: a name exported by
+    # two linked files; the culprit is the second definition, whatever the files are called
+    for rep in range(120 if ctx.thorough else 40):
+        d = impl.scratch_dir()
+        try:
+            n1, n2 = rng.choice([("main.mac", "util.mac"), ("util.mac", "main.mac"), ("zeta.mac", "alpha.mac"), ("a.mac", "b.mac"), ("m2.mac", "m10.mac")])
+            form = rng.choice(["label", "const", "mixed"])
+            nm = rng.choice(["begin", "Shared", "x.y", "k9"])
+            d1 = "%s:: nop" % nm if form in ("label", "mixed") else "%s == 5" % nm
+            d2 = "%s:: nop" % nm if form == "label" else "%s == 7" % nm
+            t1, _ = build_file(rng, None, 1)
+            t2a, _ = build_file(rng, None, 2)
+            t2b, _ = build_file(rng, None, 3)
+            text1 = t1 + d1 + "\n"
+            indent = rng.choice(["", "\t", "  "])
+            text2 = t2a + ".even\n" + indent + d2 + "\n" + t2b
+            off = len(t2a) + len(".even\n") + len(indent)
+            p1, p2 = os.path.join(d, n1), os.path.join(d, n2)
+            r = impl.assemble([(p1, text1), (p2, text2)])
+            inp = {"files": [(n1, text1), (n2, text2)], "kind": "exported twice (" + form + ")"}
+            ctx.case(("two-file", n1, n2, form, text2))
+            ctx.count("two-file reports")
+            errs = [dg for dg in r.diags if dg[0] != "warning"]
+            if r.outcome in ("crash", "hang") or not errs:
+                ctx.violation("a name exported by two files was not reported", inp, expected="duplicate-symbol", observed=r.summary() if r.outcome not in ("crash", "hang") else r.exc)
+                continue
+            sev, ident, locs = errs[0]
+            fn, s0, e0, _t = locs[0]
+            want = scan(text2, off)
+            got = scan(text2 if fn == p2 else text1, s0)
+            if fn != p2 or got != want:
+                ctx.violation("the first position of a two-file report is not the culprit (the second definition)", inp,
+                              expected={"file": n2, "line_col": want}, observed={"id": ident, "file": os.path.basename(fn), "line_col": got})
+        finally:
+            impl.drop_scratch(d)
+
     # ---------------------------------------------------------------- (c) the bare format
     for fault in (FAULTS if ctx.thorough else rng.sample(FAULTS, 12)):
         d = impl.scratch_dir()
